@@ -114,6 +114,15 @@ def run(chk):
         a, b, c = rng.choice(FUNCS), rng.choice(FUNCS), gen_var(rng)
         pairs.append(("a > b > c == a > (b > c) == a(b(!c))", "%s > %s > %s" % (a, b, c), "%s > (%s > %s)" % (a, b, c)))
         pairs.append(("a > b > c == a > (b > c) == a(b(!c))", "%s > %s > %s" % (a, b, c), "%s(%s(!%s))" % (a, b, c)))
+    # every equation also holds where the selector stands to the right of a `>` path
+    ctx_pairs = []
+    for label, l, r in pairs[N:]:
+        if label.startswith("$x") or "(b > c)" in label:
+            continue
+        pre = rng.choice(["g > ", "g(a) > ", "g > h(b) > ", "K.m > "])
+        ctx_pairs.append((label + " [under >]", pre + l, pre + r))
+        ctx_pairs.append((label + " [under > grouped]", pre + "(" + l + ")", pre + r))
+    pairs += ctx_pairs
     # respacing / line breaking
     for _ in range(N):
         t = gen_term(rng, rng.randrange(0, 3), True)
